@@ -242,4 +242,65 @@ class C06d(Obligation):
             ctx.check(ctx.iff(v in got, read_after), 'a variable is returned iff it is read after the selection')
 
 
-OBLIGATIONS = [C06a, C06b, C06d]
+class C06f(Obligation):
+    id = 'C06.f'
+    title = 'extract_function passes a used variable as a parameter iff SOME definition of it lies outside the selection'
+    pattern = 'P3 (goto results of the used name are stubs with symbolic positions)'
+    assumptions = ('a name with k<=3 definitions found by goto, each local/param or module-level (symbolic), at a symbolic '
+                   'position; the selection is [first, last) with symbolic lines',)
+
+    def configs(self, tier):
+        return [dict(k=k) for k in (1, 2, 3)]
+
+    def scenario(self, ctx, cfg):
+        k = cfg['k']
+        first = (ctx.int('first_line', 1), 0)
+        last = (ctx.int('last_line', 1), 0)
+        ctx.assume(first[0] < last[0])
+        module_context = Obj(tag='module')
+        names = []
+        info = []
+        for i in range(k):
+            is_param = ctx.flag('def%d_is_param' % i)
+            in_module_scope = ctx.flag('def%d_at_module_level' % i)
+            line = ctx.int('def%d_line' % i, 1)
+            names.append(Obj(api_type='param' if is_param else 'statement',
+                             parent_context=Obj(is_module=lambda m=in_module_scope: m),
+                             get_root_context=lambda: module_context, start_pos=(line, 0)))
+            info.append((is_param, in_module_scope, line))
+        out = ctx.call(X._is_name_input, module_context, names, first, last)
+        ctx.check(out.exc is None, 'never raises')
+        if out.exc is None:
+            outside = ctx.Or(*[ctx.And(ctx.Or(p, not m), ctx.Not(ctx.And(first[0] <= l, l < last[0])))
+                               for p, m, l in info])
+            ctx.check(ctx.iff(out.value, outside),
+                      'input iff at least one local/parameter definition lies outside the selected range')
+
+
+class C06g(Obligation):
+    id = 'C06.g'
+    title = 'extract_function inserts the new function in front of the WHOLE definition (all decorator / async wrappers)'
+    pattern = 'P3 (wrapper nesting symbolic)'
+    assumptions = ('the method is wrapped by 0..3 nodes of kind decorated / async_funcdef / async_stmt (symbolic) inside a class',)
+
+    def scenario(self, ctx, cfg):
+        depth = ctx.choice('wrapper_levels', 4)
+        ctx.int('unused')
+        suite = Obj(type='suite', parent=Obj(type='classdef', parent=Obj(type='file_input')))
+        outer = suite
+        wrappers = []
+        for i in range(depth):
+            kind = ctx.oneof('wrapper%d' % i, ('decorated', 'async_funcdef', 'async_stmt'))
+            w = Obj(type=kind, parent=outer)
+            wrappers.append(w)
+            outer = w
+        func = Obj(type='funcdef', parent=outer)
+        ctx.patch(X, 'function_is_staticmethod', lambda node: False)
+        out = ctx.call(X._get_code_insertion_node, func, True)
+        ctx.check(out.exc is None, 'never raises')
+        if out.exc is None:
+            ctx.check(out.value is (wrappers[0] if wrappers else func),
+                      'the insertion point is the outermost wrapper of the method (decorators stay with the method)')
+
+
+OBLIGATIONS = [C06a, C06b, C06d, C06f, C06g]
